@@ -86,6 +86,8 @@ SPILL_ATTR_PREFIX = "__mypyc_temp__2_"          # mypyc/transform/spill.py: f"{T
 
 # ops with `is_borrowed` whose result points into the heap (an attribute slot, a container item)
 HEAP_BORROW_OPS = {"GetAttr", "LoadMem", "CallC"}
+# borrowed results that stay valid only while their (tracked) source operands keep their references
+KEPT_BY_SOURCE_OPS = {"TupleGet", "GetAttr", "Cast", "CallC", "GetElement", "Box"}
 # C primitives that cannot run arbitrary Python code / rebind attributes or container items while they run
 # (int / float / str arithmetic and comparisons on exact built-in types, pure inspectors)
 NON_REBINDING_CALLC_PREFIXES = ("CPyTagged_", "CPyFloat_", "CPyLong_", "CPyStr_", "CPyBytes_", "CPyBool_")
@@ -230,6 +232,35 @@ def flatten(fd: dict) -> Micro:
                     if x in heap_borrowed:
                         used_at[x].append((bi, oi))
 
+    # keep-alive rule: a borrowed result lives only as long as the values it was borrowed from (the tuple of a
+    # borrowed TupleGet, the object of a borrowed GetAttr, the source of a borrowed Cast, the container argument of
+    # a borrowing C primitive): when such a source gives up a reference (DecRef / stolen operand) the borrowed value
+    # has lost its keeper.  (The refcount pass delays that DecRef behind the last use iff irbuild emitted a KeepAlive.)
+    borrow_src: dict[int, list[int]] = {}
+    for b in fd["blocks"]:
+        for op in b["ops"]:
+            d = op.get("dest")
+            if d in var and op.get("borrowed") and op["op"] in KEPT_BY_SOURCE_OPS:
+                srcs = [x for x in op["srcs"] if x in var]
+                if srcs:
+                    borrow_src[d] = srcs
+    dependants: dict[int, list[int]] = {}
+    for d, srcs in borrow_src.items():
+        for x in srcs:
+            dependants.setdefault(x, []).append(d)
+    dep_used_at: dict[int, list[tuple[int, int]]] = {d: [] for d in borrow_src}
+    if borrow_src:
+        for bi, b in enumerate(fd["blocks"]):
+            for oi, op in enumerate(b["ops"]):
+                for x in op["srcs"]:
+                    if x in dep_used_at and op["op"] != "Unborrow":
+                        dep_used_at[x].append((bi, oi))
+
+    def released(src: int, bi: int, oi: int) -> list[int]:
+        """borrowed values kept alive by `src` that may still be read after op (bi, oi)"""
+        return sorted(d for d in dependants.get(src, ())
+                      if any((ub != bi) or (uo > oi) for ub, uo in dep_used_at[d]))
+
     def clobbered_by(bi: int, oi: int) -> list[int]:
         """heap-borrowed values that may still be read after op (bi, oi) (coarse: any later use in this block or any
         use in another block)"""
@@ -319,6 +350,9 @@ def flatten(fd: dict) -> Micro:
                 elif c == "DecRef":
                     if op["src"] in var:
                         ops.append((DECREF, var[op["src"]], 1 if op["xdec"] else 0, oi))
+                        for hv in released(op["src"], bi_cur, oi):
+                            ops.append((CLOBBER, var[hv], 0, oi))
+                            idiom("borrow-source-released")
                 elif c == "Assign":
                     d, s = op["dest"], op["src"]
                     sv = vals[s]
@@ -370,6 +404,10 @@ def flatten(fd: dict) -> Micro:
                     for s in stolen:
                         if s in var:
                             ops.append((STEAL_MAYBE if c == "SetAttr" else STEAL, var[s], 0, oi))
+                            for hv in released(s, bi_cur, oi):
+                                if hv != op.get("dest"):
+                                    ops.append((CLOBBER, var[hv], 0, oi))
+                                    idiom("borrow-source-released")
                     if c == "SetAttr" and (op["obj"], op["attr"]) in slots:
                         sv = slots[(op["obj"], op["attr"])]
                         if not op.get("is_init"):
